@@ -48,6 +48,14 @@ def run(ctx):
             sites = [(bi, t) for bi, t in f.calls() if t['func'].get('name') in ('calculate_for_mode', 'difficulty')
                      and (t['func'].get('impl_adt') == 'any::difficulty::Difficulty' or t['func'].get('trait') == 'model::mode::IGameMode')]
             if not sites:
+                # the computation may sit in a local helper that receives the builder's Difficulty and its map holder
+                via = helper_sites(F, f, mode)
+                if via:
+                    for ok_, why_, ln_ in via:
+                        n1 += 1
+                        ctx.require(ok_, 'C04-R1', '%s:%s' % (mode, name), 'attributes = self.difficulty.calculate_for_mode::<%s>(map held by self) [%s]' % (CAP[mode], why_),
+                                    f.where(ln_), bad='%s: %s' % (f.path, why_))
+                    continue
                 ctx.violation('C04-R1', '%s:%s:none' % (mode, name), '%s computes no attributes for the Map case' % f.path, f.where())
                 continue
             for bi, t in sites:
@@ -132,6 +140,8 @@ def run(ctx):
             continue
         ctx.saw(fn)
         rv = prov.prov_of(fn).return_value()
+        # helper functions and delegation between the conversion impls are followed down to from_map_or_attrs
+        rv = prov.inline_all(F.facts if hasattr(F, 'facts') else F, rv, depth=4, stop=('from_map_or_attrs',), _seen=(fn.path,))
         enum_self = self_s in ('any::attributes::DifficultyAttributes', 'any::attributes::PerformanceAttributes')
         paths = set()
         for nnode in prov.walk(rv, limit=800):
@@ -170,6 +180,7 @@ def run(ctx):
         ctx.saw(fn)
         n3b += 1
         rv = prov.prov_of(fn).return_value()
+        rv = prov.inline_all(F.facts if hasattr(F, 'facts') else F, rv, depth=4, stop=('from_map_or_attrs',), _seen=(fn.path,))
         why = map_passthrough(rv)
         ctx.require(why is None, 'C04-R3', 'map-%s:%s' % (kind, fn.path), '%s hands the map to the builder as given' % fn.path, fn.where(),
                     bad='%s does not hand the map over as given (%s): a map altered or converted before the settings are known makes the '
@@ -211,6 +222,46 @@ def map_passthrough(v, depth=0):
         vias = sorted({x[1].get('name') or '?' for x in v[2] if x[0] == 'callref'})
         return 'the map is mutably borrowed by %s first' % (', '.join(vias) or 'a write')
     return 'value is `%s`' % prov.show(v, maxdepth=3)[:160]
+
+
+def helper_sites(F, f, mode):
+    """[(ok, description, line)] for calls in f of a local helper that itself calls calculate_for_mode / IGameMode::difficulty"""
+    out = []
+    P = prov.prov_of(f)
+    for bi, t in f.calls():
+        if not t['func'].get('local'):
+            continue
+        h = F.fn(t['func'].get('path'))
+        if h is None or h is f:
+            continue
+        PH = prov.prov_of(h)
+        hs = [(hb, ht) for hb, ht in h.calls() if ht['func'].get('name') in ('calculate_for_mode', 'difficulty')
+              and (ht['func'].get('impl_adt') == 'any::difficulty::Difficulty' or ht['func'].get('trait') == 'model::mode::IGameMode')]
+        if not hs:
+            continue
+        args = P.call_args(bi)
+        inst = (t['func'].get('targs') or []) + (t['func'].get('dargs') or []) + [t['func'].get('self_ty') or '', t['func'].get('impl_self') or '']
+        for hb, ht in hs:
+            hargs = PH.call_args(hb)
+            htargs = ht['func'].get('targs') or ht['func'].get('dargs') or []
+            generic = [g.split(':')[0] for g in (h.j.get('generics') or [])]
+            own = MODE_MARKER[mode] in htargs or (any(x in generic or '::' not in x for x in htargs) and any(MODE_MARKER[mode] in str(i) for i in inst))
+            rp = as_param_path(hargs[0])
+            mp = None
+            for nnode in prov.walk(hargs[1], limit=100):
+                pp = as_param_path(nnode)
+                if pp is not None:
+                    mp = pp
+                    break
+            ok = own and rp is not None and rp[1] == () and mp is not None and rp[0] <= len(args) and mp[0] <= len(args)
+            if ok:
+                d_arg = as_param_path(args[rp[0] - 1])
+                m_arg = as_param_path(args[mp[0] - 1])
+                ok = d_arg == (1, ('difficulty',)) and m_arg is not None and m_arg[0] == 1 and m_arg[1][:1] == ('map_or_attrs',)
+            out.append((ok, 'via %s: mode %s (instantiated with %s), Difficulty `%s`, map `%s`' % (
+                h.path.split('::')[-1], htargs, [i for i in inst if MODE_MARKER[mode] in str(i)][:1], prov.show(args[rp[0] - 1], maxdepth=3) if rp and rp[0] <= len(args) else '?',
+                prov.show(args[mp[0] - 1], maxdepth=3) if mp and mp[0] <= len(args) else '?'), t.get('ln')))
+    return out
 
 
 def untouched_attrs(v):
